@@ -57,6 +57,14 @@ def stepTok (m : Mux) (i : Nat) (tok : String) : Except String (Mux × String) :
       match h.toNat? with
       | none => .error "bad-op"
       | some h =>
+        -- a second wantReply request on a channel whose first one is still waiting would block on
+        -- sentRequestMu: the harness does not issue it
+        let busy := match m.held[h]? with
+          | some uid => match findByUid m uid with
+            | some (_, c) => c.requester.isSome && w == "1"
+            | none => false
+          | none => false
+        if busy then .ok (m, "-") else
         match localChanReq m i h (w == "1") with
         | none => .ok (m, "-")
         | some (m, ev) =>
